@@ -9,10 +9,17 @@ What is proved here (for all trees / page lists):
 * the accounting test of `checkFile` (sorted concatenation of reached runs, free-list run and
   free-list entries equals `2 .. numPages-1`) holds iff those pages are pairwise distinct and are
   exactly the pages below the high-water mark (`accounting_exact`).
-What is *not* proved: that `commit` always produces such a file (Layer C, DESIGN.md §3.6); that is
-decided per commit by running the verified checker on the bytes the real code wrote.
+Layer C (tree part): the model of one bucket's commit — replay of the reported `rebalance` steps, then
+`spill` — keeps "keys strictly ascending within and across pages, separators bound their subtrees" for
+every tree, step list and page size (`commit_keeps_tree_wellformed`); the correspondence run checks on
+every commit that this model predicts the shape the real code wrote.
+What is *not* proved: the page accounting of `commit` (which pages are freed and allocated); that is
+decided per commit by running the verified checker on the bytes the real code wrote, and by the
+free-list protocol theorems of C10.
 -/
 import Jamm.Proofs.FileCheckLemmas
+import Jamm.Proofs.CommitCompose
+import Jamm.Gen.Params
 set_option linter.unusedSectionVars false
 open Std
 
@@ -52,5 +59,21 @@ theorem accounting_exact (pages : List Nat) (n : Nat)
 example : wfb (K := Nat) (E := Nat) none none
     (.branch 5 (.cons 10 (.leaf 6 [(3, 0), (10, 1)]) (.cons 20 (.leaf 7 []) (.cons 30 (.leaf 8 [(30, 2)]) .nil)))) = true := by
   decide
+
+/-- commit keeps the tree invariant (separators bound their subtrees, uniform depth, no routing gap); a
+tree with the invariant and no childless branch is well-formed, so its contents are strictly ascending -/
+theorem commit_keeps_tree_wellformed (pagesize hdr leafHdr branchHdr bmSize : Nat)
+    (steps : List RbStep) (t : Tree Bytes Ent) (h : TreeInv t)
+    (hne : nebT (commitTree Gen.params pagesize hdr leafHdr branchHdr bmSize steps t) = true) :
+    WF none none (commitTree Gen.params pagesize hdr leafHdr branchHdr bmSize steps t) ∧
+    Spec.Sorted (commitTree Gen.params pagesize hdr leafHdr branchHdr bmSize steps t).flatten := by
+  have hi := commitTree_inv Gen.params pagesize hdr leafHdr branchHdr bmSize (by decide) (by decide) steps t h
+  have hw := wfs_wf none none _ hi.sep hne
+  exact ⟨hw, (flatten_sorted none none _ hw).1⟩
+
+/-- the executable forms the correspondence run evaluates on the real trees are sound for the invariant -/
+theorem invariant_checkers_sound (t : Tree K E) (h1 : wfsb none none t = true) (h2 : tightB none t = true)
+    (d : Nat) (h3 : uniformB t = some d) : TreeInv t :=
+  ⟨wfsb_sound none none t h1, tightB_sound none t h2, d, uniformB_sound t d h3⟩
 
 end Jamm.Props.C05
